@@ -25,12 +25,14 @@ def load_findings():
 def matches(sig, d):
     """An open finding's signature matches a divergence when every stated key agrees; `features` must be a
     subset of the divergence's features. Never matches on the property id alone."""
-    keys = [k for k in sig if k != 'features']
+    keys = [k for k in sig if k not in ('features', 'component_in')]
     if not keys and not sig.get('features'):
         return False
     for k in keys:
         if d.get(k) != sig[k]:
             return False
+    if 'component_in' in sig and d.get('component') not in sig['component_in']:
+        return False
     return set(sig.get('features', [])) <= set(d.get('features') or [])
 
 
